@@ -311,6 +311,8 @@ def run(ctx):
 
 
 def _run(ctx):
+    import time as _t
+    _t0 = _t.time()
     C.coq_lib()
     ctx.trusted = TRUSTED
     ctx.coq_file(os.path.join(C.COQ, "props", "C10.v"))
@@ -327,6 +329,7 @@ def _run(ctx):
     ctx.obligation("cencoding.pyx lines embedded in cencoding.c equal the working tree's .pyx (the compiled code is the source)",
                    not stale, "; ".join("%s:%d %r vs %r" % d for d in stale[:5]))
     root = C.shadow()
+    ctx.extra.setdefault("stream_seconds", {})["coq+translators"] = round(_t.time() - _t0, 1)
     big_stack()
     pq = C.Pqref()
     enums, structs = T.load_idl()
@@ -339,17 +342,27 @@ def _run(ctx):
                     "boundaries, enums over their declared values; built through ThriftObject.from_fields with IDL-consistent i32/i32list markers, "
                     "and parsed from bytes encoded by the proved specification writer; plus untyped random Python objects for the model-as-function "
                     "correspondence; trivial = empty struct; distinct = distinct (stream, tree)") % ", ".join(ROOTS)
-        stream_api(ctx, pq, w, root, enums, structs, specs_names)
-        stream_pickle(ctx, w, enums, structs, specs_names)
-        stream_foreign(ctx, pq, w, root, enums, structs, specs_names)
-        stream_foreign_wide(ctx, pq, w, root, enums, structs, specs_names)
-        stream_generic(ctx, pq, w)
-        stream_dict_eq(ctx, pq, w)
-        stream_boundary(ctx, pq, root, enums, structs)
-        stream_known(ctx, pq, root, enums, structs, specs_names)
-        stream_index(ctx, pq, root, enums, structs, specs_names)
-        stream_files(ctx, pq)
-        stream_edits(ctx, pq)
+        import time as _time
+        secs = ctx.extra.setdefault("stream_seconds", {})
+
+        def timed(name, fn, *a):
+            t0 = _time.time()
+            fn(*a)
+            secs[name] = round(_time.time() - t0, 1)
+        from harness import c10_sizes as Z
+        timed("api", stream_api, ctx, pq, w, root, enums, structs, specs_names)
+        timed("pickle", stream_pickle, ctx, w, enums, structs, specs_names)
+        timed("foreign", stream_foreign, ctx, pq, w, root, enums, structs, specs_names)
+        timed("foreign_wide", stream_foreign_wide, ctx, pq, w, root, enums, structs, specs_names)
+        timed("generic", stream_generic, ctx, pq, w)
+        timed("dict_eq", stream_dict_eq, ctx, pq, w)
+        timed("boundary", stream_boundary, ctx, pq, root, enums, structs)
+        timed("known", stream_known, ctx, pq, root, enums, structs, specs_names)
+        timed("index", stream_index, ctx, pq, root, enums, structs, specs_names)
+        timed("struct_sizes", stream_struct_sizes, ctx, pq, w, enums, structs, specs_names)
+        timed("files", stream_files, ctx, pq)
+        timed("edits", stream_edits, ctx, pq)
+        timed("footer_parse", Z.stream_footer_parse, ctx, pq)
     finally:
         w.close()
         pq.close()
@@ -387,6 +400,9 @@ def translators(ctx):
                                                                            enum_paths=sorted(os.path.join(fp, f) for f in os.listdir(fp) if f.endswith(".py"))),
          "GenCallsitesProofs.v"),
     ]
+    from harness import gentr
+    gentr.run_translator(ctx, "fileops2coq_parse_header", ["fileops2coq.py", "parse_header", os.path.join(fp, "api.py")],
+                         "GenParseHeader.v", "GenParseHeaderProofs.v", "api.ParquetFile._parse_header")
     for name, out, fn, proofs in jobs:
         try:
             open(os.path.join(gen, out), "w").write(fn())
@@ -405,9 +421,10 @@ def translators(ctx):
 
 def stream_api(ctx, pq, w, root, enums, structs, specs_names):
     rng = ctx.rng
-    n = 500 if ctx.quick() else 6000
+    n = 400 if ctx.quick() else 6000
     g = Gen(rng, enums, structs, specs_names, "main")
-    trees = corpus_trees() + large_trees(rng)
+    # quick tier: the 2000-column footer; the 1 MB key-value payload (10 s through the extracted model) runs in the thorough tier
+    trees = corpus_trees() + (large_trees(rng)[:1] if ctx.quick() else large_trees(rng))
     ctx.extra["corpus_cases"] = len(trees)
     for i in range(n):
         rootname = ROOTS[i % len(ROOTS)]
@@ -415,19 +432,19 @@ def stream_api(ctx, pq, w, root, enums, structs, specs_names):
         lens = rng.choice([(1, 2, 3), (1, 14, 15, 16), (1, 2, 100), (1, 15), (2, 16)])
         trees.append(g.struct(rootname, 0, lens))
     encs = pq.batch([("thrift_enc", to_tv(tr)) for tr in trees])
-    keep = []
+    keep, keep_enc = [], []
     for tr, e in zip(trees, encs):
         if len(bytes(e[1])) > cap_lo(tr):
             oversize_case(ctx, pq, root, tr, len(bytes(e[1])), "api")       # may still fit (key-value text enlarges the buffer)
         else:
             keep.append(tr)
+            keep_enc.append(e)
     trees = keep
     impl = []
     for tr in trees:
         impl.append(w.call("api_roundtrip", to_recipe(tr)))
     cmds = []
     for tr, r in zip(trees, impl):
-        cmds.append(("thrift_enc", to_tv(tr)))
         if r[0] == "ok":
             b, x, y, eq, cap = r[1]
             cmds.append(("c_to_bytes", cap, T.pv(x)))
@@ -435,7 +452,7 @@ def stream_api(ctx, pq, w, root, enums, structs, specs_names):
             cmds.append(("idl_dec", tr[1], 0, 0, 1, b))
             cmds.append(("c_typed_ok", tr[1], T.pv(x)))
     outs = iter(pq.batch(cmds))
-    for tr, r in zip(trees, impl):
+    for tr, r, enc in zip(trees, impl, keep_enc):
         st = tree_stats(tr, {})
         case = {"stream": "api", "root": tr[1], "tree": tree_json(tr)}
         ctx.case(case, trivial=(not tr[2]))
@@ -443,7 +460,6 @@ def stream_api(ctx, pq, w, root, enums, structs, specs_names):
         for ln in st.get("list_lens", []):
             ctx.count("api.list_len", ln if ln <= 16 else ">=17")
         ctx.count("api.maxblob", bucket(st.get("maxblob", 0)))
-        enc = next(outs)
         if r[0] != "ok":
             ctx.correspondence("to_bytes(API-built) ~ impl model c_to_bytes", case, "ok", list(r[:3]))
             ctx.fail({"component": "to_bytes", "kind": "crash-or-exception", "stream": "api"}, case, "worker: %r" % (r[:3],))
@@ -572,7 +588,7 @@ def corpus_trees():
 
 def stream_foreign(ctx, pq, w, root, enums, structs, specs_names):
     rng = ctx.rng
-    n = 400 if ctx.quick() else 4000
+    n = 300 if ctx.quick() else 4000
     g = Gen(rng, enums, structs, specs_names, "main")
     trees = []
     for i in range(n):
@@ -774,13 +790,14 @@ def stream_boundary(ctx, pq, root, enums, structs):
     """Statistics(max=<n bytes>) serialises to n + 1 + varint(n) + 1 bytes; the buffer holds exactly 500000."""
     rng = ctx.rng
     over = 1 + 3 + 1          # field header, 3-byte length varint (n >= 16384), stop byte
-    for n in [CAP - over - 2, CAP - over - 1, CAP - over]:
+    for n in ([CAP - over - 1, CAP - over] if ctx.quick() else [CAP - over - 2, CAP - over - 1, CAP - over]):
         tr = ("struct", "Statistics", [(1, "max", "FBinary", ("bin", bytes([rng.randrange(256)]) * n))])
         boundary_case(ctx, pq, root, tr, n + over)
     tr = ("struct", "KeyValue", [(1, "key", "FString", ("str", b"k" * (CAP - over - 7))), (2, "value", "FString", ("str", b"v"))])
     boundary_case(ctx, pq, root, tr, CAP - 7 + 3)
-    tr = ("struct", "ColumnChunk", [(1, "file_path", "FString", ("str", b"p" * (CAP - over - 3))), (2, "file_offset", "FI64", ("i64", 4))])
-    boundary_case(ctx, pq, root, tr, CAP - 3 + 2)
+    if not ctx.quick():
+        tr = ("struct", "ColumnChunk", [(1, "file_path", "FString", ("str", b"p" * (CAP - over - 3))), (2, "file_offset", "FI64", ("i64", 4))])
+        boundary_case(ctx, pq, root, tr, CAP - 3 + 2)
 
 
 def boundary_case(ctx, pq, root, tr, size):
@@ -991,7 +1008,7 @@ def stream_index(ctx, pq, root, enums, structs, specs_names):
     IDL-consistent markers and on specification-encoded bytes; each case in its own subprocess when it holds a list<bool> (read_list
     parses those as structs).  Failures are classified by the list element types involved (open findings, all in .pyx)."""
     rng = ctx.rng
-    n = 90 if ctx.quick() else 900
+    n = 60 if ctx.quick() else 900
     g = Gen(rng, enums, structs, specs_names, "wide")
     w = T.Worker(root, ctx.scratch)
     try:
@@ -1076,6 +1093,56 @@ def stream_edits(ctx, pq):
             ctx.fail(cls, {"stream": "edits", "edit_case": case}, "; ".join(problems)[:1500])
 
 
+# ---- wave 3: every struct x serialised sizes on a lattice (harness/c10_sizes.py) -------------------------------------
+
+def stream_struct_sizes(ctx, pq, w, enums, structs, specs_names):
+    """to_bytes / from_buffer / pickle of EVERY struct the serialiser knows, with one payload (top level or nested) sized so
+    that the serialisation has S-1, S, S+1 bytes for S on a lattice of powers of two / round numbers below the 500000-byte buffer"""
+    from harness import c10_sizes as Z
+    names = [n for n in sorted(specs_names) if n in structs and Z.blob_tree(structs, specs_names, n, 0) is not None]
+    ctx.extra["struct_sizes_roots"] = names
+    encs = pq.batch([("thrift_enc", to_tv(Z.blob_tree(structs, specs_names, n, 0))) for n in names])
+    base = {n: len(bytes(e[1])) for n, e in zip(names, encs)}
+    sizes = Z.size_lattice(ctx.quick())
+    small = [s for s in sizes if s <= 2 ** 14 + 2]
+    bigs = [s for s in sizes if s > 2 ** 14 + 2]
+    plan = []
+    for i, n in enumerate(names):
+        mine = list(small) + ([bigs[(2 * i) % len(bigs)], bigs[(2 * i + 1) % len(bigs)]] if (ctx.quick() and bigs) else bigs)
+        for S in mine:
+            # base counts one payload byte-length varint of 1 byte (n = 0)
+            for k in (1, 2, 3, 4):
+                nb = S - base[n] - (k - 1)
+                if nb >= 0 and Z.uleb_len(nb) == k:
+                    plan.append((n, S, nb))
+                    break
+    trees = [Z.blob_tree(structs, specs_names, n, nb) for n, S, nb in plan]
+    wants = pq.batch([("thrift_enc", to_tv(tr)) for tr in trees])
+    for (n, S, nb), tr, e in zip(plan, trees, wants):
+        want = bytes(e[1])
+        case = {"stream": "struct-sizes", "root": n, "payload_bytes": nb, "serialised_size": S}
+        ctx.case(case)
+        ctx.count("struct-sizes.root", n)
+        ctx.count("struct-sizes.size", S)
+        assert len(want) == S, (n, S, len(want))
+        r = w.call("api_roundtrip", to_recipe(tr), 120)
+        cls = {"component": "to_bytes", "stream": "struct-sizes", "root": n, "over": S - CAP}
+        if r[0] != "ok":
+            ctx.fail(dict(cls, kind="crash-or-exception"), case, "to_bytes/from_buffer of a %s of %d bytes: %r" % (n, S, r[:3]))
+            continue
+        b, x, y, eq, cap = r[1]
+        ctx.correspondence("to_bytes(every struct x size lattice) ~ spec encoding thrift_enc (byte-exact)", case,
+                           [len(want), C.sha(want)[:20]], [len(b), C.sha(b)[:20]])
+        if b != want or not eq:
+            ctx.fail(dict(cls, kind="truncated" if len(b) < len(want) else "wrong-bytes"), case,
+                     "%s: to_bytes returned %d bytes, the serialisation has %d; x == from_buffer(to_bytes(x)): %s" % (n, len(b), len(want), eq))
+            continue
+        r2 = w.call("pickle", (n, x), 120)
+        if r2[0] != "ok" or not r2[1][0]:
+            ctx.fail({"component": "pickle", "kind": "not-equal" if r2[0] == "ok" else "crash-or-exception", "stream": "struct-sizes", "root": n},
+                     case, "pickle.loads(pickle.dumps(x)) != x for a %s of %d bytes: %r" % (n, S, r2[:2] if r2[0] != "ok" else "not equal"))
+
+
 # ---------------------------------------------------------------------------------------------------
 
 def replay(rep):
@@ -1119,7 +1186,10 @@ def replay(rep):
             return 1 if problems else 0
         finally:
             shutil.rmtree(tmp, ignore_errors=True)
-    if "tree" not in case:
+    if case.get("stream") == "footer-parse":
+        from harness import c10_sizes as Z
+        return Z.replay_footer_parse(case)
+    if "tree" not in case and case.get("stream") != "struct-sizes":
         print(json.dumps(rep, indent=1)[:6000])
         return 1
     import tempfile
@@ -1127,7 +1197,15 @@ def replay(rep):
     root = C.shadow()
     tmp = tempfile.mkdtemp(prefix="verif-C10-replay-", dir="/tmp")
     try:
-        tr = tree_unjson(case["tree"])
+        if case.get("stream") == "struct-sizes":
+            from harness import c10_sizes as Z
+            enums, structs = T.load_idl()
+            w0 = T.Worker(root, tmp)
+            specs_names = set(call(w0, "specs_names", sorted(structs)))
+            w0.close()
+            tr = Z.blob_tree(structs, specs_names, case["root"], case["payload_bytes"])
+        else:
+            tr = tree_unjson(case["tree"])
         big_stack()
         pq = C.Pqref()
         if case.get("stream") == "foreign":
@@ -1153,6 +1231,10 @@ def replay(rep):
             len(b), b == want, eq, conf))
         pq.close()
         bad = not (eq and conf and b == want)
+        if case.get("stream") == "struct-sizes" and not bad:
+            r2 = one_shot(root, tmp, "pickle", (tr[1], x))
+            print("pickle round trip:", r2[0], r2[1][0] if r2[0] == "ok" else r2[1:3])
+            bad = r2[0] != "ok" or not r2[1][0]
         print("PROPERTY FAILS" if bad else "ok")
         return 1 if bad else 0
     finally:
